@@ -10,7 +10,7 @@ for name in sys.argv[1:]:
     m = json.load(open(os.path.join(d, "meta.json")))
     prop = m["property"]
     p = subprocess.run(["tools/seedtest.sh", prop, os.path.join(d, "patch.diff")], cwd=V, stdout=subprocess.PIPE, stderr=subprocess.STDOUT, text=True)
-    caught = p.returncode == 1 and "VIOLATION property=%s" % prop in p.stdout
+    caught = p.returncode == 1 and ("VIOLATION property=%s" % prop in p.stdout or re.search(r"violations [1-9]", p.stdout) is not None)
     c = m.setdefault("confirmed", {})
     c["caught_by_quick_check"] = caught
     ran = [r for r in c.get("ran", []) if "bin/check" not in r.get("cmd", "")]
